@@ -55,6 +55,13 @@ class C05(Check):
             if n == 2 or tier != 'quick':        # 3 fixes: ~4 min of non-linear queries, thorough tier
                 js.append(dict(kind='spatial', n=n))
         js.sort(key=lambda j: -(j['n'] * 10 + j.get('m', 3)))
+        # scale probes: longer fixed tracks (uneven spacing: long legs first, then a dense zig-zag; irregular sampling), symbolic step in a narrow range
+        for shape in (('sparse_first',) if tier == 'quick' else ('sparse_first', 'dense_first', 'even')):
+            for n in ((12,) if tier == 'quick' else (8, 9, 12, 24)):
+                for ds in ((34.0, 7.25) if tier == 'quick' else (34.0, 7.25, 125.5, 1.0, 300.0)):
+                    js.append(dict(kind='spatial_long', n=n, shape=shape, step=ds))
+                for st in ((3350, 333, 1000.0 / 3, 162.5) if tier == 'quick' else (3350, 333, 1000, 162, 9050, 1, 1000.0 / 3, 162.5, 1000.0 / 7, 0.75)):      # milliseconds, whole and fractional
+                    js.append(dict(kind='temporal_long', n=n, shape=shape, step=st))
         return js
 
     def patches(self, job):
@@ -104,10 +111,147 @@ class C05(Check):
         from tracklib.core import Track, Obs, ENUCoords
         return Track([Obs(ENUCoords(0.0, 0.0, 0.0), s) for s in stamps]), ks
 
+    @staticmethod
+    def _long_fixes(job, eng, inp):
+        n, shape = job['n'], job['shape']
+        xs, ys = [0.0], [0.0]
+        for i in range(1, n):
+            long_leg = (i <= n // 3) if shape == 'sparse_first' else ((i > n - 1 - n // 3) if shape == 'dense_first' else False)
+            if shape == 'even':
+                dx, dy = 30.0, 10.0 * (1 if i % 2 else -1)
+            elif long_leg:
+                dx, dy = 100.0, 25.0 * (1 if i % 2 else -1)
+            else:
+                dx, dy = 4.0, 9.0 * (1 if i % 2 else -1)
+            xs.append(xs[-1] + dx)
+            ys.append(ys[-1] + dy)
+        zs = [float((i * 5) % 7) for i in range(n)]
+        for i in (1, n - 2):       # the symbolic payload: two heights (the step and the planimetric geometry are fixed, so the control flow is concrete)
+            zs[i] = eng.real('z%d' % i, -50, 50) if inp is None else float(inp['z%d' % i])
+        gaps = [1 + (i * 3) % 5 for i in range(n - 1)]        # irregular sampling: 1..5 s between fixes
+        ts = [0]
+        for g in gaps:
+            ts.append(ts[-1] + g)
+        return xs, ys, zs, ts
+
+    def _long(self, ctx, job, inp):
+        """scale probes; with inp None: symbolic run (ctx given); else concrete replay returning the result dict"""
+        sym = inp is None
+        eng = ctx.eng if sym else None
+        n = job['n']
+        xs, ys, zs, ts = self._long_fixes(job, eng, inp)
+        from tracklib.core import Track, Obs, ENUCoords, ObsTime
+        tr = Track([Obs(ENUCoords(xs[i], ys[i], zs[i]), ObsTime(1970, 1, 1, 0, ts[i] // 60, ts[i] % 60, 0)) for i in range(n)])
+        S = [0.0]
+        for i in range(n - 1):
+            S.append(S[-1] + math.hypot(xs[i + 1] - xs[i], ys[i + 1] - ys[i]))
+        tolq = z3.Q(1, 10 ** 6)
+
+        def near(a, b, scale=1.0):
+            if sym:
+                return z3.And(a - b <= tolq * scale, b - a <= tolq * scale)
+            return abs(a - b) <= 1e-6 * scale
+        if job['kind'] == 'spatial_long':
+            ds = float(job['step'])
+            tr.resample(ds, 1, 1)
+            m = tr.size()
+            if sym:
+                ctx.reach()
+                ctx.observe(size=m)
+            dz = ds
+            desc = '%d-fix %s track (heights %r), ds %r' % (n, job['shape'], zs if not sym else '?', ds)
+            okn = ((m - 1) * dz <= S[-1] + 1e-6 and m * dz > S[-1] - 1e-6)
+            if sym and not okn:
+                ctx.fail('long track: the samples are not the first fix and the points at abscissas ds, 2ds, ... up to the length of the track')
+                return None
+            if not okn:
+                return dict(violation='%s: %d samples for a length of %r' % (desc, m, S[-1]), outputs=dict(size=m))
+            p0 = tr.getObs(0).position
+            if (p0.getX(), p0.getY()) != (xs[0], ys[0]) or p0.getZ() is not zs[0] and p0.getZ() != zs[0]:
+                if sym:
+                    ctx.fail('long track: the first resampled point is not the first fix')
+                    return None
+                return dict(violation='%s: first sample is not the first fix' % desc, outputs=dict(size=m))
+            prev = None
+            for k in range(1, m):
+                o = tr.getObs(k)
+                s = k * dz
+                got = (o.position.getX(), o.position.getY(), o.position.getZ())
+                t = o.timestamp
+                tsec = (zreal(t.sec) + zreal(t.ms) / 1000 + 60 * zreal(t.min)) if sym else (t.sec + t.ms / 1000.0 + 60 * t.min)
+                if sym:
+                    br = []
+                    for i in range(n - 1):
+                        L = S[i + 1] - S[i]
+                        wf, wb = (s - S[i]) / L, (S[i + 1] - s) / L
+                        ti = ts[i] * wb + ts[i + 1] * wf
+                        if not (S[i] - 1e-6 < s <= S[i + 1] + 1e-6):
+                            continue
+                        br.append(z3.And(near(zreal(got[0]), zreal(xs[i] * wb + xs[i + 1] * wf)), near(zreal(got[1]), zreal(ys[i] * wb + ys[i + 1] * wf)),
+                                         near(zreal(got[2]), zreal(zs[i] * wb + zs[i + 1] * wf)), tsec <= ti + 1e-6, tsec + 0.0011 >= ti))
+                    if not ctx.prove(z3.And(z3.Or(br) if br else z3.BoolVal(False), tsec >= prev if prev is not None else True),
+                                     'long track: sample k lies on the polyline at abscissa k*ds with linearly interpolated height and timestamp; timestamps never decrease'):
+                        return None
+                else:
+                    for name, vs, g in (('x', xs, got[0]), ('y', ys, got[1]), ('z', zs, got[2])):
+                        w = lin_interp(S, vs, s)
+                        if w is not None and abs(g - w) > 1e-5 * (1 + abs(w)):
+                            return dict(violation='%s: sample %d has %s = %r, the point at abscissa %r has %r' % (desc, k, name, g, s, w), outputs=dict(size=m))
+                    w = lin_interp(S, [float(v) for v in ts], s)
+                    if w is not None and (not (w - 0.0011 <= tsec <= w + 1e-5) or (prev is not None and tsec < prev)):
+                        return dict(violation='%s: sample %d stamped %r s, interpolated time %r (previous %r)' % (desc, k, tsec, w, prev), outputs=dict(size=m))
+                prev = tsec
+            return dict(violation=None, outputs=dict(size=m))
+        # temporal, numeric step in milliseconds
+        st = job['step']
+        tr.resample(st / 1000.0, 1, 2)
+        m = tr.size()
+        if sym:
+            ctx.reach()
+            ctx.observe(size=m)
+        stz = st
+        T = ts[-1] * 1000
+        desc = '%d-fix %s track (heights %r), step %r ms' % (n, job['shape'], zs if not sym else '?', st)
+        okn = (m * stz <= T + 1e-6 and (m + 1) * stz > T - 1e-6)
+        if sym and not okn:
+            ctx.fail('long track: not exactly one sample per requested instant in (t_first, t_last]')
+            return None
+        if not okn:
+            return dict(violation='%s: %d samples for a duration of %d ms' % (desc, m, T), outputs=dict(size=m))
+        for k in range(1, m + 1):
+            o = tr.getObs(k - 1)
+            t = o.timestamp
+            r = k * stz
+            got = (o.position.getX(), o.position.getY(), o.position.getZ())
+            if sym:
+                stamp = (zterm(t.sec) + 60 * zterm(t.min)) * 1000 + zterm(t.ms)
+                br = []
+                for i in range(n - 1):
+                    dt = 1000.0 * (ts[i + 1] - ts[i])
+                    if not (1000 * ts[i] < r <= 1000 * ts[i + 1]):
+                        continue
+                    wf, wb = (r - 1000 * ts[i]) / dt, (1000 * ts[i + 1] - r) / dt
+                    br.append(z3.And(near(zreal(got[0]), zreal(xs[i] * wb + xs[i + 1] * wf)), near(zreal(got[1]), zreal(ys[i] * wb + ys[i + 1] * wf)),
+                                     near(zreal(got[2]), zreal(zs[i] * wb + zs[i + 1] * wf))))
+                if not ctx.prove(z3.And(stamp - r <= 1, r - stamp <= 1, z3.Or(br) if br else z3.BoolVal(False)), 'long track: sample k is stamped with the k-th requested instant and lies at the linear interpolation between the bracketing fixes'):
+                    return None
+            else:
+                stamp = (t.sec + 60 * t.min) * 1000 + t.ms
+                if abs(stamp - r) > 1 or (t.year, t.month, t.day, t.hour) != (1970, 1, 1, 0):
+                    return dict(violation='%s: sample %d stamped %s (ms %r) for the requested instant %r ms' % (desc, k, t, stamp, r), outputs=dict(size=m))
+                for name, vs, g in (('x', xs, got[0]), ('y', ys, got[1]), ('z', zs, got[2])):
+                    w = lin_interp([1000.0 * v for v in ts], vs, r)
+                    if w is not None and abs(g - w) > 1e-5 * (1 + abs(w)):
+                        return dict(violation='%s: sample at %r ms has %s = %r, linear interpolation gives %r' % (desc, r, name, g, w), outputs=dict(size=m))
+        return dict(violation=None, outputs=dict(size=m))
+
     def path(self, ctx, job):
         eng = ctx.eng
         n = job['n']
         try:
+            if job['kind'].endswith('_long'):
+                self._long(ctx, job, None)
+                return
             if job['kind'] == 'temporal':
                 xs, ys, zs, secs, mss = self._fixes(eng, None, n, True)
                 tms = [zterm(secs[i]) * 1000 + zterm(mss[i]) for i in range(n)]
@@ -226,6 +370,8 @@ class C05(Check):
     def concrete(self, job, inp):
         n = job['n']
         try:
+            if job['kind'].endswith('_long'):
+                return self._long(None, job, inp)
             if job['kind'] == 'temporal':
                 xs, ys, zs, secs, mss = self._fixes(None, inp, n, True)
                 tms = [secs[i] * 1000 + mss[i] for i in range(n)]
@@ -261,7 +407,7 @@ class C05(Check):
             if abs(S[-1] / ds - round(S[-1] / ds)) > 1e-9 and m != N + 1:
                 return dict(violation='%s: %d samples, expected the first fix and %d samples' % (desc, m, N), outputs=out)
             p0 = tr.getObs(0).position
-            if (p0.getX(), p0.getY(), p0.getZ()) != (xs[0], ys[0], zs[0]):
+            if (p0.getX(), p0.getY()) != (xs[0], ys[0]) or p0.getZ() is not zs[0] and p0.getZ() != zs[0]:
                 return dict(violation='%s: first sample is not the first fix' % desc, outputs=out)
             prev = -1.0
             for k in range(1, m):
